@@ -8,6 +8,36 @@ def thms(ns, names):
 
 
 REG = {
+    "C01": {
+        "modules": ["VProofs.Props.C01"],
+        "theorems": thms("C01", ["C01_detect", "C01_pandas", "C01_pandas_model"]),
+        "runners": ["pandas", "engine"],
+    },
+    "C02": {
+        "modules": ["VProofs.Props.C02"],
+        "theorems": thms("C02", ["C02_order_indep", "C02_mutex_generic_pandas", "dtype_partition", "contains_dtypePred"]),
+        "runners": ["pandas"],
+    },
+    "C03": {
+        "modules": ["VProofs.Props.C03"],
+        "theorems": thms("C03", ["C03_infer_sound", "C03_lands_step"]),
+        "runners": ["pandas"],
+    },
+    "C04": {
+        "modules": ["VProofs.Props.C04"],
+        "theorems": thms("C04", ["C04_fixpoint"]),
+        "runners": ["pandas"],
+    },
+    "C15": {
+        "modules": ["VProofs.Props.C15"],
+        "theorems": thms("C15", ["C15_detect", "C15_infer"]),
+        "runners": ["pandas"],
+    },
+    "C16": {
+        "modules": ["VProofs.Props.C16"],
+        "theorems": thms("C16", ["C16_chain", "C16_nested_pandas", "C16_witness_F26", "C16_witness_F27", "on_path_of_contains"]),
+        "runners": ["pandas"],
+    },
     "C05": {
         "modules": ["VProofs.Props.C05"],
         "theorems": thms("C05", ["C05_detected_is_input", "C05_inferred_is_input_when_no_coercion",
